@@ -119,6 +119,37 @@ func (in *Interp) intrinsic(fn *ssa.Function, args []Value, site *ssa.Call) (Val
 	case "internal/bytealg.LastIndexByte", "internal/bytealg.LastIndexByteString":
 		in.stub(full)
 		return in.lastIndexByte(in.viewOf(args[0]), args[1].(*Term)), true
+	// strconv.FormatFloat / ParseFloat as an inverse pair through an opaque
+	// carrier string: the shortest representation ('f', -1, 64) of a float64
+	// parses back to exactly that float64 (documented strconv contract); the
+	// digits themselves are never inspected (a decimal float contains no ':').
+	case "strconv.FormatFloat":
+		x := args[0].(*Term)
+		if x.Op == OFPConst {
+			return nil, false
+		}
+		if in.cint(args[1]) != 'f' || in.cint(args[2]) != -1 || in.cint(args[3]) != 64 {
+			in.unsupported("FormatFloat with symbolic value and a format other than ('f',-1,64)")
+		}
+		in.stub("strconv.FormatFloat/ParseFloat('f',-1,64) as an inverse pair (shortest representation round-trips exactly)")
+		in.objSeq++
+		o := &Obj{id: in.objSeq, elemT: types.Typ[types.Uint8], lenOnly: true, phys: 400, fltTag: x}
+		ln := in.freshVar("fltlen", BV(64))
+		in.assumeX(ts.And(ts.Ule(ts.Const(64, 1), ln), ts.Ule(ln, ts.Const(64, 400))), "FormatFloat length")
+		return StrV{O: o, Off: ts.Const(64, 0), Len: ln}, true
+	case "strconv.ParseFloat":
+		if s, ok := args[0].(StrV); ok && s.O != nil && s.O.fltTag != nil {
+			return TupleV{s.O.fltTag, IfaceV{}}, true
+		}
+		return nil, false
+	case "strings.Split":
+		if s, ok := args[0].(StrV); ok && s.O != nil && s.O.fltTag != nil {
+			o := in.newObj(types.Typ[types.String], 1)
+			o.E[0] = s
+			one := ts.Const(64, 1)
+			return SliceV{o, ts.Const(64, 0), one, one}, true
+		}
+		return nil, false
 	case "strings.Clone", "internal/stringslite.Clone":
 		return args[0], true
 	case "(*strings.Builder).copyCheck", "(*strings.Builder).Grow", "(*bytes.Buffer).Grow":
